@@ -139,11 +139,20 @@ def _trig_apps(terms):
     return list(out.values())
 
 
+# Marker hypothesis: an obligation that carries this (otherwise unconstrained) Boolean constant among its hypotheses asks
+# for NO angle-addition instances - its cos/sin applications stay opaque.  Used for the gradient obligations (3), where
+# both sides contain the *same* applications cos(m(phi - phi_nm)) / sin(m(phi - phi_nm)) and expanding them would only
+# blow the polynomials up.  (Fewer lemma instances can never make a false obligation provable.)
+OPAQUE = z3.Bool("c12!trig-applications-stay-opaque")
+
+
 def trig_facts(terms, max_facts=4000):
     """Ground instances of the angle-addition schemas that reduce every occurring cos/sin of a linear combination of
     angle atoms to cos/sin of the atoms.  Returns a list of z3 facts (each one an instance of a textbook identity with
     its arithmetic side condition as antecedent)."""
     facts, done = [], set()
+    if any(t.get_id() == OPAQUE.get_id() for t in terms):
+        return []
 
     def emit(guard, *eqs):
         body = z3.And(*eqs) if len(eqs) > 1 else eqs[0]
@@ -325,3 +334,55 @@ def eval_float(t, env, _cache=None):
             raise KeyError(f"no value for {str(t)[:60]}")
     cache[k] = r
     return r
+
+
+# ---------------------------------------------------------------------------------------------------------------------
+# exact division of a polynomial term by a variable (used for (1/alpha) d chi / d phi).  NOT trusted: the caller states the
+# obligation  x * divide_by(t, x) == t  and z3 proves it.
+# ---------------------------------------------------------------------------------------------------------------------
+
+
+def divide_by(t, x, _m=None):
+    """A term q with x*q == t, obtained by removing one factor x from every summand; ValueError if some summand has none."""
+    m = {} if _m is None else _m
+    if t.get_id() == x.get_id():
+        return z3.RealVal(1)
+    v = _num_value(t)
+    if v is not None and v == 0:
+        return z3.RealVal(0)
+    if not z3.is_app(t) or not _mentions(t, x, m):
+        raise ValueError(f"summand without a factor {x}: {str(t)[:80]}")
+    kind = t.decl().kind()
+    ch = t.children()
+    if kind == z3.Z3_OP_ADD:
+        r = None
+        for c in ch:
+            q = divide_by(c, x, m)
+            r = q if r is None else r + q
+        return r
+    if kind == z3.Z3_OP_SUB:
+        r = divide_by(ch[0], x, m)
+        for c in ch[1:]:
+            r = r - divide_by(c, x, m)
+        return r
+    if kind == z3.Z3_OP_UMINUS:
+        return -divide_by(ch[0], x, m)
+    if kind == z3.Z3_OP_MUL:
+        # a zero factor makes the product zero
+        if any(_num_value(c) == 0 for c in ch):
+            return z3.RealVal(0)
+        for i, c in enumerate(ch):
+            if _mentions(c, x, m):
+                try:
+                    q = divide_by(c, x, m)
+                except ValueError:
+                    continue
+                r = None
+                for j, o in enumerate(ch):
+                    f = q if j == i else o
+                    r = f if r is None else r * f
+                return r
+        raise ValueError(f"no factor {x} in product {str(t)[:80]}")
+    if kind == z3.Z3_OP_DIV and not _mentions(ch[1], x, m):
+        return divide_by(ch[0], x, m) / ch[1]
+    raise ValueError(f"cannot divide {str(t)[:80]} by {x}")
